@@ -67,6 +67,8 @@ ExpBytes(T, sub, v, big, norm, clip) ==
       [] sub = S_ALAW -> <<IF T = "s" THEN AEncode16(v) ELSE IF T = "i" THEN AEncode16(v \div 65536) ELSE G711Float(v, T, FALSE)>>
       [] sub = S_PCM_U8 -> <<ExpCode(T, sub, v, norm, clip) + 128>>
       [] OTHER -> BytesOf(ExpCode(T, sub, v, norm, clip), Width(sub) \div 8, big)
+\* the driver logs mantissas wider than 30 bits in two parts <<hi, lo, e>> (hi = |m| div 2^30, lo = |m| mod 2^30, both signed)
+DySplit(d) == IF Abs(d[1]) > 1073741823 THEN <<SignOf(d[1]) * (Abs(d[1]) \div 1073741824), SignOf(d[1]) * (Abs(d[1]) % 1073741824), d[2]>> ELSE d
 \* ---- expected value delivered for one stored code ----
 DecodeCode(sub, bytes, big) ==
     CASE sub = S_ULAW -> UDecode(bytes[1])
@@ -81,8 +83,6 @@ ExpValue(T, sub, c, norm) ==
          LET r == IF T = "f" THEN RoundSig(Abs(c), 24) ELSE <<Abs(c), 0>> IN
          DySplit(DyNorm(SignOf(c) * r[1], r[2] - (IF norm THEN w - 1 ELSE 0)))
 
-\* the driver logs mantissas wider than 30 bits in two parts <<hi, lo, e>> (hi = |m| div 2^30, lo = |m| mod 2^30, both signed)
-DySplit(d) == IF Abs(d[1]) > 1073741823 THEN <<SignOf(d[1]) * (Abs(d[1]) \div 1073741824), SignOf(d[1]) * (Abs(d[1]) % 1073741824), d[2]>> ELSE d
 SampleBytes(sub) == IF sub \in {S_ULAW, S_ALAW, S_PCM_U8, S_PCM_S8} THEN 1 ELSE Width(sub) \div 8
 Chunk(bytes, i, n) == SubSeq(bytes, (i - 1) * n + 1, i * n)
 
